@@ -54,7 +54,13 @@ type executor struct {
 }
 
 func startExecutor(prop string) (*executor, error) {
-	cmd := exec.Command(os.Args[0], prop)
+	// /proc/self/exe keeps working when the binary file is replaced or removed while the check runs
+	// (bin/check rebuilds into the same path; other checks clean /verif/.bin)
+	self := "/proc/self/exe"
+	if _, err := os.Stat(self); err != nil {
+		self = os.Args[0]
+	}
+	cmd := exec.Command(self, prop)
 	env := []string{"CHUNKS_EXECUTOR=1", "GOMAXPROCS=2", "GOTRACEBACK=single"}
 	for _, e := range os.Environ() {
 		if strings.HasPrefix(e, "VERIF_SHARD") || strings.HasPrefix(e, "GOMAXPROCS=") || strings.HasPrefix(e, "GOTRACEBACK=") {
